@@ -20,7 +20,7 @@ GenNext ==
   \/ (PullCheck /\ Silent)
   \/ (PullDequeue /\ IF waiting # <<>> THEN Vis("deq") ELSE Silent)
   \/ (PullRun /\ Vis(IF pq \in cancelled THEN "runskip" ELSE "run"))
-  \/ (PullSendReady /\ Silent) \/ (PullSendRunning /\ Silent)
+  \/ (PullSendReady /\ Silent) \/ (PullSendRunning /\ Silent) \/ (PullClear /\ Silent)
   \/ \E q \in Q :
        \/ (Enqueue(q) /\ Vis("enq"))
        \/ (Recv(q) /\ Vis("recv:" \o Head(chan[q])))
@@ -29,6 +29,7 @@ GenNext ==
        \/ (ClientCancel(q) /\ Vis("cancel"))
        \/ \E w \in Who : \/ (CancelMark(q, w) /\ Silent) \/ (CancelUnqueue(q, w) /\ Silent) \/ (CancelSend(q, w) /\ Silent)
                          \/ (CancelWaitLook(q, w) /\ Silent) \/ (CancelWaitSend(q, w) /\ Silent)
+                         \/ (CancelWaitMark(q, w) /\ Silent) \/ (CancelRelook(q, w) /\ Silent)
 GenSpec == GenInit /\ [][GenNext]_<<vars, hist>>
 
 (* the same for several queries: labels carry the query, and only the steps that matter for admission are kept
@@ -39,7 +40,7 @@ Gen2Next ==
   \/ (PullCheck /\ Silent)
   \/ (PullDequeue /\ IF waiting # <<>> THEN Vis("deq") ELSE Silent)
   \/ (PullRun /\ Vis("run"))
-  \/ (PullSendReady /\ Silent) \/ (PullSendRunning /\ Silent)
+  \/ (PullSendReady /\ Silent) \/ (PullSendRunning /\ Silent) \/ (PullClear /\ Silent)
   \/ \E q \in Q :
        \/ (Enqueue(q) /\ Vis("enq:" \o QName(q)))
        \/ (Recv(q) /\ IF Head(chan[q]) \in TerminalMsgs THEN Vis("recv:" \o QName(q) \o ":" \o Head(chan[q])) ELSE Silent)
